@@ -123,6 +123,7 @@ int main(int argc, char **argv) {
 	std::vector<size_t> sizes = quick ? std::vector<size_t>{3} : std::vector<size_t>{2, 3, 8};
 	std::vector<size_t> qr_sizes = quick ? std::vector<size_t>{3} : std::vector<size_t>{2, 3};
 	std::string only_proto = ctx.option("proto"); bool dump = ctx.option_l("dump", 0) != 0;
+	long only_world = ctx.option_l("world", -1), max_n = ctx.option_l("maxn", 0);      // development aids (triage of the full catalogue)
 	std::map<int, World *> wcache; std::map<int, Alt *> acache;
 	auto &F = registry();
 	long k = 0;
@@ -134,7 +135,12 @@ int main(int argc, char **argv) {
 		// quick: sized protocols in one world (rotating with the seed and the protocol index); the rest in every world
 		if (quick && f.sized && f.family == "dlog" && (fi + ctx.seed) % worlds.size() != wi) continue;
 		if (isD && !(fi % 5 == ctx.seed % 5)) continue;                     // default sizes: sampled
-		if (!only_proto.empty() && f.name != only_proto) { continue; }
+		bool filtered = false;
+		if (!only_proto.empty()) {     // development / mutant triage: --opt proto=<prefix>[,<prefix>...]; case numbers stay the same
+			bool hit = false; std::stringstream ps(only_proto); std::string pfx; while (std::getline(ps, pfx, ',')) if (!pfx.empty() && f.name.compare(0, pfx.size(), pfx) == 0) hit = true;
+			filtered = !hit;
+		}
+		if (only_world >= 0 && (long)wi != only_world) filtered = true;
 		std::vector<size_t> ns = f.sized ? (f.family == "qr" ? qr_sizes : sizes) : std::vector<size_t>{0};
 		if (isD && f.sized) ns = {2};
 		size_t nblocks = blocks_of(f.name) * (quick ? 1 : 3);
@@ -142,7 +148,8 @@ int main(int argc, char **argv) {
 			if (!quick && n == 8 && !(wi == 0 || wi == 3)) continue;                 // thorough: n = 8 in the S/random-g and G worlds
 			std::string cid = std::string(worlds[wi].tag) + " " + f.name + " n=" + std::to_string(n);
 			std::string desc = cid + " block=" + std::to_string(blk) + "/" + std::to_string(nblocks);
-			if (!case_begin(k++, desc)) continue;
+			long kk = k++;
+			if (filtered || (max_n > 0 && (long)n > max_n) || !case_begin(kk, desc)) continue;
 			World *&W = wcache[(int)wi];
 			if (!W) { W = new World(*worlds[wi].ps, worlds[wi].vkind, ctx.seed); if (isD) W->rabin_bits = 1024; prepare_world(*W, isD ? std::vector<size_t>{2} : sizes, wi == 0 || isD); }
 			uint64_t cseed = fnv(cid);
